@@ -12,7 +12,7 @@ corr-S  : every program is compiled with and without the inline keyword (all eli
 import re
 from lib.common import *
 from lib.asmcorr import *
-from lib.gen_c import gen_program
+from lib.gen_c import gen_program, nested_inline_program
 from lib.pipeline import *
 from lib.coexec import observable
 
@@ -66,6 +66,10 @@ def run(ctx):
         srcs['p%d' % i] = {'inl': with_src, 'sub': subset, 'out': without}
     for k, s in FIXED.items():
         srcs[k] = {'inl': s, 'sub': s, 'out': s.replace('inline ', '')}
+    # nested inlining, each level expanded several times
+    for i in range(60 if quick else 1500):
+        s = nested_inline_program(rng)
+        srcs['n%d' % i] = {'inl': s, 'sub': s, 'out': s.replace('inline ', '')}
     viol = []
     nexec = 0
     nprog = 0
